@@ -321,7 +321,11 @@ outerReadLoop:
 		}
 
 		closing := make(chan bool)
+		// done tells the reader that the write loop is gone. The reader is the
+		// only sender on clientInputs and therefore the only one to close it.
+		done := make(chan struct{})
 		go func() {
+			defer close(clientInputs)
 			for {
 				// Listen for incoming messages to know if the client wants to
 				// close the stream. If this is an error, we assume the client
@@ -332,21 +336,25 @@ outerReadLoop:
 					close(closing)
 					return
 				}
-				clientInputs <- buf
+				select {
+				case clientInputs <- buf:
+				case <-done:
+					return
+				}
 			}
 		}()
 
 		for {
 			select {
 			case <-closing:
-				close(clientInputs)
+				close(done)
 				break outerReadLoop
 			case reply, ok := <-outChan:
 				if !ok {
 					ws.WriteControl(websocket.CloseMessage,
 						websocket.FormatCloseMessage(websocket.CloseNormalClosure, "service finished streaming"),
 						time.Now().Add(time.Millisecond*500))
-					close(clientInputs)
+					close(done)
 					return
 				}
 				tx += len(reply)
@@ -355,7 +363,7 @@ outerReadLoop:
 				if err != nil {
 					log.Error(xerrors.Errorf("failed to set the write "+
 						"deadline in the streaming loop: %v", err))
-					close(clientInputs)
+					close(done)
 					break outerReadLoop
 				}
 
@@ -363,7 +371,7 @@ outerReadLoop:
 				if err != nil {
 					log.Error(xerrors.Errorf("failed to write next message "+
 						"in the streaming loop: %v", err))
-					close(clientInputs)
+					close(done)
 					break outerReadLoop
 				}
 			}
